@@ -94,6 +94,9 @@ def gen_cases(tier: str, seed: int):
         if x < 0.12:
             yield {"kind": "array_literal", "seed": r.randrange(1 << 30)}
             continue
+        if x < 0.15:
+            yield {"kind": r.choice(["flatten2", "nested_cast"]), "seed": r.randrange(1 << 30), "source": r.choice(["literal", "column"])}
+            continue
         doc = {k: gen_doc(r, 1) for k in r.sample(KEYS, r.randint(1, 4))} if r.random() < 0.8 else [gen_doc(r, 1) for _ in range(r.randint(0, 4))]
         paths = all_paths(doc)
         y = r.random()
@@ -165,6 +168,10 @@ def run_case(case: dict, env: core.Env) -> None:
         return _try_parse(case, env, cur)
     if kind == "array_literal":
         return _array_literal(case, env, cur)
+    if kind == "flatten2":
+        return _flatten2(case, env, cur)
+    if kind == "nested_cast":
+        return _nested_cast(case, env, cur)
     doc = json.loads(case["doc"])
     path, op, source, syntax = case["path"], case["op"], case["source"], case["syntax"]
     found, val = nav(doc, path)
@@ -381,6 +388,96 @@ def run_case(case: dict, env: core.Env) -> None:
     cur.execute(f"DELETE FROM DOCS WHERE ID = {rid}")
     if compared:
         env.nontrivial((case["doc"], path, op, source, syntax))
+
+
+_WORDS = ["ann", "bob", "it's", "x y", "", "Ünï", "a,b", "\"q\"", "red", "NULL", "true", "12"]
+
+
+def _text_of(v: Any) -> Any:
+    """VARIANT element -> VARCHAR."""
+    if v is None:
+        return None
+    if isinstance(v, bool):
+        return "true" if v else "false"
+    if isinstance(v, str):
+        return v
+    return json.dumps(v)
+
+
+def _store(cur: Any, doc: Any) -> tuple[int, str]:
+    _state["n"] += 1
+    rid = _state["n"]
+    lit_src = f"PARSE_JSON({qs(json.dumps(doc))})"
+    cur.execute("DELETE FROM DOCS")
+    cur.execute(f"INSERT INTO DOCS SELECT {rid}, {lit_src}")
+    return rid, lit_src
+
+
+def _flatten2(case: dict, env: core.Env, cur: Any) -> None:
+    """Two LATERAL FLATTENs in one SELECT: each alias's VALUE::VARCHAR is the element's text."""
+    from collections import Counter
+
+    r = random.Random(case["seed"])
+    xs = [r.choice(_WORDS) for _ in range(r.randint(1, 3))]
+    ys = [r.choice(_WORDS + [7, True]) for _ in range(r.randint(1, 3))]
+    doc = {"xs": xs, "ys": ys}
+    rid, lit_src = _store(cur, doc)
+    a1, a2 = r.choice([("a", "b"), ("f", "g"), ("t", "o")])
+    if case["source"] == "literal":
+        frm = f"FROM LATERAL FLATTEN(input => {lit_src}:xs) {a1}, LATERAL FLATTEN(input => {lit_src}:ys) {a2}"
+    else:
+        frm = f"FROM DOCS d, LATERAL FLATTEN(input => d.V:xs) {a1}, LATERAL FLATTEN(input => d.V:ys) {a2} WHERE d.ID = {rid}"
+    env.cover("op_x_kind", f"flatten2/{case['source']}")
+    sql = f"SELECT {a1}.VALUE::VARCHAR AS X, {a2}.VALUE::VARCHAR AS Y {frm}"
+    out = core.run_stmt(cur, sql)
+    if not out["ok"]:
+        env.witness(f"C11/rejected/flatten-two-laterals/{case['source']}/{out['exc']['cls']}", f"{sql}: {out['exc']['msg'][:250]}")
+        return
+    env.count("cmp_flatten")
+    want = Counter((_text_of(x), _text_of(y)) for x in xs for y in ys)
+    got = Counter(tuple(r_) for r_ in out["rows"])
+    if got != want:
+        which = "first" if Counter(k[0] for k in got.elements()) != Counter(k[0] for k in want.elements()) else "second"
+        env.witness(f"C11/flatten-two-laterals/value-cast-text/{which}-alias", f"{sql} -> {sorted(got.elements(), key=repr)!r} expected {sorted(want.elements(), key=repr)!r}")
+    s_y = next((y for y in ys if isinstance(y, str) and y), None)
+    if s_y is not None:
+        sql2 = f"SELECT COUNT(*) {frm}{' AND' if 'WHERE' in frm else ' WHERE'} {a2}.VALUE::VARCHAR = {qs(s_y)}"
+        o2 = core.run_stmt(cur, sql2)
+        n = sum(1 for _ in xs for y in ys if _text_of(y) == s_y)
+        if o2["ok"] and o2["rows"] != [(n,)]:
+            env.witness("C11/flatten-two-laterals/value-cast-text-in-comparison", f"{sql2} -> {o2['rows']} expected {n}")
+    env.nontrivial(("flatten2", json.dumps(doc), case["source"], a1))
+
+
+def _nested_cast(case: dict, env: core.Env, cur: Any) -> None:
+    """An extract+cast whose document expression itself contains an extract+cast."""
+    r = random.Random(case["seed"])
+    inner = {"k": r.choice(_WORDS), "n": r.randint(-5, 500), "b": r.random() < 0.5}
+    kind = r.choice(["a", "b"])
+    doc = {"kind": kind, "a": {"name": r.choice(_WORDS), "n": 1}, "b": {"name": r.choice(_WORDS), "n": 2}, "payload": json.dumps(inner)}
+    rid, lit_src = _store(cur, doc)
+    src = lit_src if case["source"] == "literal" else "V"
+    frm = "" if case["source"] == "literal" else f" FROM DOCS WHERE ID = {rid}"
+    forms = [
+        ("double-encoded/text", f"PARSE_JSON({src}:payload::VARCHAR):k::VARCHAR", inner["k"]),
+        ("double-encoded/int", f"PARSE_JSON({src}:payload::VARCHAR):n::INT", inner["n"]),
+        ("double-encoded/bool", f"PARSE_JSON({src}:payload::VARCHAR):b::BOOLEAN", inner["b"]),
+        ("discriminator/text", f"IFF({src}:kind::VARCHAR = 'a', {src}:a, {src}:b):name::VARCHAR", doc[kind]["name"]),
+        ("discriminator/int", f"IFF({src}:kind::VARCHAR = 'a', {src}:a, {src}:b):n::INT", doc[kind]["n"]),
+        ("case-discriminator/text", f"CASE WHEN {src}:kind::VARCHAR = 'b' THEN {src}:b:name::VARCHAR ELSE UPPER({src}:a:name::VARCHAR) END",
+         doc["b"]["name"] if kind == "b" else doc["a"]["name"].upper()),
+    ]
+    env.cover("op_x_kind", f"nested_cast/{case['source']}")
+    for name, expr, want in forms:
+        out = core.run_stmt(cur, f"SELECT {expr} AS X{frm}")
+        if not out["ok"]:
+            env.witness(f"C11/rejected/nested-extract-cast/{name}/{out['exc']['cls']}", f"{out['sql']}: {out['exc']['msg'][:250]}")
+            continue
+        env.count("cmp_cast_text")
+        got = out["rows"][0][0] if out["rows"] else "<<no row>>"
+        if got != want or type(got) is not type(want):
+            env.witness(f"C11/nested-extract-cast/{name}", f"{out['sql']} -> {got!r} expected {want!r}")
+    env.nontrivial(("nested_cast", json.dumps(doc), case["source"]))
 
 
 def _object_construct(case: dict, env: core.Env, cur: Any) -> None:
